@@ -11,10 +11,20 @@ PROP_UNITS = {
                           'FBig operator vs Context method at the same precision: only float_mul / float_add_ops']},
     # C05: base changes must return normalised values (== follows the value); C09: !, &, |, ^ of IBig go through
     # add_one / sub_one of the magnitude (unit int_add_ops)
-    'C05': {'verus': ['float_convert_base']},
+    'C05': {'verus': ['float_convert_base', 'float_shift']},          # a shifted zero must stay the canonical zero
     'C09': {'verus': ['int_add_ops']},
+    # C04: every RBig operation reduces through the integer gcd (Lehmer for multi-word parts) and multiplies through
+    # the dispatching multiplication (scratch-memory sizing included)
+    'C04': {'verus': ['int_gcd_ops', 'int_gcd_small', 'int_leh_guess', 'int_leh_step', 'int_leh_top', 'int_leh_gcd',
+                      'int_memsize_dispatch']},
+    # C13: inv / division of residues is the extended gcd; clone_from across rings (bounded Kani)
+    'C13': {'verus': ['int_gcd_small', 'int_gcd_ops'], 'kani': ['int_modclone']},
+    # C06 names the to_int family explicitly
+    'C06': {'verus': ['float_fbig_to_int', 'float_conv']},
+    # C14: AbsOrd / NumOrd of floats of one base go through repr_cmp_same_base (unit float_cmp)
+    'C14': {'verus': ['float_cmp']},
     # C08: decode is proved complete by Kani (base_bit); float_from_prim composes it
-    'C08': {'kani': ['base_bit'],
+    'C08': {'kani': ['base_bit'], 'verus': ['float_repr_round'],
             'undecided': ['float parser and printer (str / core::fmt)', 'convert_base (ln/exp at doubled precision, f32 '
                           'estimates)', 'with_precision: one correct rounding (float_conv)']},
 }
